@@ -161,12 +161,19 @@ class Driver:
             d["p"] = list(a)
             d["kind"] = T.get(a, "none")
             d["sub"] = subs(T, a)
+            dst = tuple(seq(op[2]))
+            for pre, old in self.moved_out.items():   # moved INTO a directory that left the tree earlier (D7)
+                if dst[: len(pre)] == pre and len(dst) > len(pre):
+                    d["alias"] = list(old + dst[len(pre):])
         elif k == "movein":
             a, b = tuple(seq(op[1])), tuple(seq(op[2]))
             d["q"] = list(b)
             d["kind"] = self.otree.get(a, "none")
             d["sub"] = subs(self.otree, a)
             d["victim"] = T.get(b, "none")
+            for pre, old in self.moved_out.items():   # moved in FROM a directory that left the tree earlier (D7)
+                if a[: len(pre)] == pre and len(a) > len(pre):
+                    d["alias"] = list(old + a[len(pre):])
         elif k == "rmroot":
             d["kind"] = "dir"
             d["sub"] = subs(T, ())
